@@ -563,6 +563,33 @@ func runC08(t *testing.T) func(c c08Case, st *verifkit.Stats) *verifkit.Failure 
 						}
 					}
 				}
+				// "peer type taken from the real remote AS": the local routes go out the way the peer's type requires
+				if eor, _ := body.IsEndOfRib(); !eor && (len(body.NLRI) > 0 || func() bool {
+					for _, a := range body.PathAttributes {
+						if _, ok := a.(*bgp.PathAttributeMpReachNLRI); ok {
+							return true
+						}
+					}
+					return false
+				}()) {
+					pathLen, hasLP := 0, false
+					for _, a := range body.PathAttributes {
+						switch v := a.(type) {
+						case *bgp.PathAttributeAsPath:
+							for _, prm := range v.Value {
+								pathLen += len(prm.GetAS())
+							}
+						case *bgp.PathAttributeLocalPref:
+							hasLP = true
+						}
+					}
+					if ref.ibgp && (pathLen != 0 || !hasLP) {
+						return verifkit.Failf("export-as-to-wrong-peer-type", "the peer's real AS %d is the local AS (internal peer), but a local route is sent with %d AS numbers in the AS_PATH and LOCAL_PREF present=%v", c.PeerAS, pathLen, hasLP)
+					}
+					if !ref.ibgp && (pathLen != 1 || hasLP) {
+						return verifkit.Failf("export-as-to-wrong-peer-type", "the peer's real AS %d differs from the local AS %d (external peer), but a local route is sent with %d AS numbers in the AS_PATH and LOCAL_PREF present=%v", c.PeerAS, c.effLocalAS(), pathLen, hasLP)
+					}
+				}
 			}
 			for _, f := range []bgp.Family{bgp.RF_IPv4_UC, bgp.RF_IPv6_UC, bgp.RF_IPv4_VPN} {
 				if _, ok := ref.fams[f]; ok && seenFam[f] != 2 {
